@@ -53,7 +53,7 @@ fn check_cfg(eng: &str, k: usize, r: usize, data: &str, seed: u64) -> Result<(u6
 
 /// reset histories: a sequence of configurations on one default-rate object, each followed by a
 /// round compared with the dedicated codec
-fn check_history(eng: &str, layer: &str, seq: &[(usize, usize)], seed: u64) -> Result<u64, V> {
+fn check_history(eng: &str, layer: &str, seq: &[(usize, usize)], seed: u64, with_failing: bool) -> Result<u64, V> {
     let kind = Kind::parse(layer);
     let bytes = 64usize;
     let res = guard(|| -> Result<u64, V> {
@@ -63,6 +63,12 @@ fn check_history(eng: &str, layer: &str, seq: &[(usize, usize)], seed: u64) -> R
             let mut dec = AnyDec::<E>::new(kind, k0, r0, bytes, None).map_err(|e| ("new Ok".to_string(), format!("{e:?}")))?;
             let mut n = 0u64;
             for (step, &(k, r)) in seq.iter().enumerate() {
+                if step > 0 && with_failing {
+                    // a rejected reset with the same counts (invalid shard size) must not influence the choice
+                    if enc.reset(k, r, 63).is_ok() || dec.reset(k, r, 0).is_ok() {
+                        return Err((format!("reset({k},{r},<invalid size>) -> Err"), "Ok".to_string()));
+                    }
+                }
                 if step > 0 {
                     enc.reset(k, r, bytes).map_err(|e| (format!("encoder reset({k},{r}) Ok"), format!("{e:?}")))?;
                     dec.reset(k, r, bytes).map_err(|e| (format!("decoder reset({k},{r}) Ok"), format!("{e:?}")))?;
@@ -114,7 +120,7 @@ fn fmt_seq(s: &[(usize, usize)]) -> String {
 fn run_case(kv: &Kv) -> Result<(u64, bool), V> {
     match kv.str("what") {
         "cfg" => check_cfg(kv.str("eng"), kv.usize("k"), kv.usize("r"), kv.str("data"), kv.u64("seed")),
-        "hist" => check_history(kv.str("eng"), kv.str("layer"), &parse_seq(kv.str("seq")), kv.u64("seed")).map(|n| (n, true)),
+        "hist" => check_history(kv.str("eng"), kv.str("layer"), &parse_seq(kv.str("seq")), kv.u64("seed"), kv.opt("failing") == Some("1")).map(|n| (n, true)),
         w => panic!("what {w}"),
     }
 }
@@ -195,10 +201,13 @@ pub fn run(ctx: &Ctx, rep: &mut Report) {
             if eng == "avx2" && (!engines_fast().contains(&"avx2") || (!ctx.thorough() && s.len() > 2)) {
                 continue;
             }
-            cases.push(Kv::new().with("what", "hist").with("eng", eng).with("layer", layer).with("seq", fmt_seq(s)).with("seed", seed));
+            cases.push(Kv::new().with("what", "hist").with("eng", eng).with("layer", layer).with("seq", fmt_seq(s)).with("seed", seed).with("failing", 0));
+            if eng != "avx2" {
+                cases.push(Kv::new().with("what", "hist").with("eng", eng).with("layer", layer).with("seq", fmt_seq(s)).with("seed", seed).with("failing", 1));
+            }
         }
     }
-    rep.bound("histories", J::s(format!("all sequences of 2..={depth} configurations over {alpha:?} on DefaultRate<NoSimd> and ReedSolomonEncoder/Decoder (DefaultRate<Avx2>: length 2 in quick, 3 in thorough)")));
+    rep.bound("histories", J::s(format!("all sequences of 2..={depth} configurations over {alpha:?} on DefaultRate<NoSimd> and ReedSolomonEncoder/Decoder (DefaultRate<Avx2>: length 2 in quick, 3 in thorough); each history also with a rejected reset (same counts, invalid shard size) before every reset")));
 
     let results: Vec<Result<(u64, bool), V>> = par_for(cases.len(), 4, |i| match guard(|| run_case(&cases[i])) {
         Ok(r) => r,
@@ -223,7 +232,7 @@ pub fn run(ctx: &Ctx, rep: &mut Report) {
                 }
             }
             Err((exp, obs)) => rep.violation(Violation {
-                key: format!("{}-{}-{}", kv.str("what"), kv.str("eng"), if kv.str("what") == "cfg" { format!("k{}r{}", kv.str("k"), kv.str("r")) } else { format!("{}-{}", kv.str("layer"), kv.str("seq")) }),
+                key: format!("{}-{}-{}", kv.str("what"), kv.str("eng"), if kv.str("what") == "cfg" { format!("k{}r{}", kv.str("k"), kv.str("r")) } else { format!("{}-{}-f{}", kv.str("layer"), kv.str("seq"), kv.opt("failing").unwrap_or("0")) }),
                 case: kv.dump(),
                 expected: exp,
                 observed: obs,
